@@ -126,7 +126,7 @@ pub fn check(c: &(M, Vec<u16>), obs: &mut Obs) -> Result<(), String> {
 }
 
 fn run(ctx: &mut Ctx) {
-    let cases = ctx.share(ctx.tier.pick(60_000, 2_000_000));
+    let cases = ctx.share(ctx.tier.pick(400_000, 4_000_000));
     let p = ctx.tier.pick(TreeParams::quick(), TreeParams::thorough()).finite();
     run_strategy(ctx, "C19", "trees", cases, (arb_doc(p), vec(any::<u16>(), 1..5)), check);
 }
